@@ -169,7 +169,7 @@ class PropertyCall:
         self.q, self.o = q, o
 
 
-SPEC_NAMES = {'TXT', 'ALL', 'SAME_ITEMS', 'ENDS_WITH', 'MATCH', 'NOMATCH', 'UB', 'SORTED', 'SUFFIX', 'FRESH', 'ALLWS', 'NEXTBY_PRED'}
+SPEC_NAMES = {'TXT', 'ALL', 'SAME_ITEMS', 'ENDS_WITH', 'STACKID', 'MATCH', 'NOMATCH', 'UB', 'SORTED', 'SUFFIX', 'FRESH', 'ALLWS', 'NEXTBY_PRED'}
 
 
 class ClosureEnv:
@@ -379,6 +379,8 @@ class Exec:
             return z3.And(v.z != self.W.tt_none, v.z != self.W.tt(self.W.T.Token))
         if isinstance(v, LRef):
             return self.list_len(st, v).z > 0 if isinstance(self.list_len(st, v), SInt) else self.list_len(st, v) > 0
+        if isinstance(v, Rec) and v.kind == 'istack':
+            return st.objs[v.oid]['len'] > 0
         if isinstance(v, (Rec, Func, Opaque)):
             if isinstance(v, Rec) and v.kind == 'match?':
                 raise OutsideSubset('match?')
@@ -971,6 +973,16 @@ class Exec:
 
     def index(self, o, i, st):
         """o[i] with Python semantics; returns list of (state, value); IndexError paths raise via exc list"""
+        if isinstance(o, Rec) and o.kind == 'istack':
+            if not (isinstance(i, int) and i == -1):
+                raise OutsideSubset('index into an abstract integer stack other than [-1]')
+            out = []
+            for s, ne in self.decide(st, st.objs[o.oid]['len'] > 0):
+                if ne:
+                    out.append((s, SInt(s.objs[o.oid]['top'])))
+                else:
+                    self.raise_on(s, 'IndexError', 'list index out of range')
+            return out
         if self.is_strlike(o) and self.is_intlike(i):
             if isinstance(o, str) and isinstance(i, int):
                 try:
@@ -1249,6 +1261,15 @@ class Exec:
             return None
         finally:
             del self.goals[marks:]
+
+    def spec_fn(self, name, args, kw, st):
+        if name == 'STACKID':
+            # identity of the abstract value of an integer stack (equal ids <=> same sequence of entries)
+            v = args[0]
+            if isinstance(v, Rec) and v.kind == 'istack':
+                return [(st, SInt(z3.IntVal(st.objs[v.oid]['vid'])))]
+            raise OutsideSubset('STACKID of %r' % (v,))
+        raise OutsideSubset('spec function %s' % name)
 
     def call(self, f, args, kw, st, node=None):
         """returns list of (state, value)"""
@@ -1696,3 +1717,61 @@ class Exec:
 def _as_load(node):
     n = ast.parse(ast.unparse(node), mode='eval').body
     return n
+
+
+
+# ----------------------------------------------------------------------------------- abstract integer stacks
+# A list of ints that the code uses as a stack (append / pop / [-1] / truthiness / len) and whose entries are strictly
+# increasing (stated by the contract that creates it).  Modelled by (len, top) and a persistent "version": push creates a
+# version whose parent is the old one, pop returns to the parent if it is known, otherwise to an unknown stack with a
+# smaller top.  Two stacks are the same abstract value iff their versions are equal.
+
+_ISTACK_POP_CACHE = {}
+_ISTACK_PUSH_CACHE = {}
+_istack_ids = __import__('itertools').count(1)
+
+
+def new_istack(ex, st, name, length=None, top=None):
+    """an abstract integer stack in an arbitrary state (length >= 0; top is meaningful if length > 0)"""
+    ln = length if length is not None else fresh(name + '_len', z3.IntSort())
+    tp = top if top is not None else fresh(name + '_top', z3.IntSort())
+    st.assume(ln >= 0)
+
+    def append(ex_, self_val, args, kw, s):
+        o = s.objs[self_val.oid]
+        x = ex_.z_int(args[0])
+        parent = (o['vid'], o['len'], o['top'], o['parent'])
+        # (pushing the same value term onto the same abstract stack gives the same abstract stack)
+        key = (o['vid'], z3.simplify(x).sexpr())
+        if key not in _ISTACK_PUSH_CACHE:
+            _ISTACK_PUSH_CACHE[key] = next(_istack_ids)
+        o.update({'vid': _ISTACK_PUSH_CACHE[key], 'len': z3.simplify(o['len'] + 1), 'top': x, 'parent': parent})
+        return [(s, None)]
+
+    def pop(ex_, self_val, args, kw, s):
+        if args:
+            raise OutsideSubset('istack.pop(i)')
+        out = []
+        for s1, ne in ex_.decide(s, s.objs[self_val.oid]['len'] > 0):
+            if not ne:
+                ex_.raise_on(s1, 'IndexError', 'pop from empty list')
+                continue
+            o = s1.objs[self_val.oid]
+            res = SInt(o['top'])
+            if o['parent'] is not None:
+                vid, ln_, tp_, par = o['parent']
+            else:
+                # the rest of an unknown stack: unknown, but the same every time this version is popped, shorter by one,
+                # and (entries strictly increasing) with a smaller top
+                key = o['vid']
+                if key not in _ISTACK_POP_CACHE:
+                    _ISTACK_POP_CACHE[key] = (next(_istack_ids), fresh('rest_top', z3.IntSort()))
+                vid, tp_ = _ISTACK_POP_CACHE[key]
+                ln_ = z3.simplify(o['len'] - 1)
+                par = None
+                s1.assume(z3.Implies(ln_ > 0, tp_ < o['top']))
+            o.update({'vid': vid, 'len': ln_, 'top': tp_, 'parent': par})
+            out.append((s1, res))
+        return out
+    return ex.new_obj(st, 'istack', {'vid': next(_istack_ids), 'len': ln, 'top': tp, 'parent': None,
+                                     '__methods__': {'append': append, 'pop': pop}})
